@@ -38,6 +38,14 @@ def finish(x, asserts, info=None, kf=None, inv=True, mem=True):
         for k, v in im.items():
             asserts["MEM." + k] = v
         w.obs.append(("mem", {k: (v if isinstance(v, bool) else SBool(v)) for k, v in im.items()}))
+    # C10 (1): every state a kill can leave (each committed snapshot of this operation) passes the
+    # start-up integrity check and has no duplicate records
+    ci = []
+    for (_, snap) in w.db.commit_log:
+        cl = inv_db_clauses(snap)
+        ci += [cl[k] for k in CRASH_CLAUSES]
+        ci += [z3.Not(t) for t, _ in w.db.fk_violations(tables=snap.tables)]
+    asserts["C10.crash_inv"] = And(*ci)
     if w.usage is not None and "C15.records" not in asserts:
         # nothing was retired by this operation: no usage record may appear
         up, uq = x.pre_usage, w.usage.snapshot()
